@@ -960,6 +960,42 @@ class SetAlg:
         h = t[0]
         if (h == "call" and len(t) < 4) or (h == "meth" and len(t) < 5):
             return (h,) + tuple(self.canon(x) for x in t[1:])  # not a call term (a data tuple that happens to start with the word)
+        if h == "call" and isinstance(t[1], str) and t[1].split(".")[-1] == "replace" and (t[1].startswith("dataclasses") or t[1] == "replace") \
+                and len(t[2]) == 1 and t[3]:
+            # dataclasses.replace(obj, f=v, ...): the object with these fields set
+            return self.canon_opaque(("mut", t[2][0], tuple(("setattr", k, v) for k, v in t[3])))
+        if h == "mut" and len(t) == 3:
+            base, effs = t[1], list(t[2])
+            while base[0] == "mut" and len(base) == 3:
+                effs = list(base[2]) + effs
+                base = base[1]
+            if base[0] == "call" and isinstance(base[1], str) and base[1].split(".")[-1] == "replace" and len(base[2]) == 1 and base[3]:
+                effs = [("setattr", k, v) for k, v in base[3]] + effs
+                base = base[2][0]
+                while base[0] == "mut" and len(base) == 3:
+                    effs = list(base[2]) + effs
+                    base = base[1]
+            keys = []
+            simple = True
+            for e_ in effs:
+                if e_[0] == "setattr" and len(e_) == 3:
+                    keys.append(("a", e_[1]))
+                elif e_[0] == "setitem-attr" and len(e_) == 4:
+                    keys.append(("i", e_[1], repr(self.canon(_read_through(e_[2])))))
+                else:
+                    simple = False
+                    break
+            if simple and len(set(keys)) == len(keys) and not any(k[0] == "a" and any(k2[0] == "i" and k2[1] == k[1] for k2 in keys) for k in keys):
+                # assignments to different fields / different items of the object commute: one order is kept
+                order = sorted(range(len(effs)), key=lambda i_: keys[i_])
+                effs2 = tuple((effs[i_][0],) + tuple(self.canon(_read_through(x)) if isinstance(x, tuple) else x for x in effs[i_][1:]) for i_ in order)
+                return ("mut", self.canon(base), effs2)
+            if len(effs) != len(t[2]) or base is not t[1]:
+                return ("mut", self.canon(base), tuple(self.canon(_read_through(e_)) if isinstance(e_, tuple) else e_ for e_ in effs))
+        if h == "attr" and len(t) == 3 and is_term(t[1]) and t[1][0] == "mut":
+            r_ = _read_through(t)
+            if r_ is not t:
+                return self.canon(r_)
         if h == "index" and len(t) == 3 and is_term(t[1]) and t[1][0] in ("tuplelit", "listlit") and t[2][0] == "const" and isinstance(t[2][1], int) \
                 and not any(x[0] == "star" for x in t[1][1]) and -len(t[1][1]) <= t[2][1] < len(t[1][1]):
             return self.canon(t[1][1][t[2][1]])  # (a, b)[0] is a
@@ -1092,6 +1128,30 @@ class SetAlg:
     def _canon_cond(self, c: Term) -> Term:
         f = self.cond(c)
         return ("COND", formula_key(f))
+
+
+def _read_through(t: Any) -> Any:
+    """attr(mut(base, effects), name): the value last assigned to that field, else the base's field (when no effect touches it)"""
+    if not isinstance(t, tuple):
+        return t
+    if not is_term(t):
+        return tuple(_read_through(x) for x in t)
+
+    def fn(s_):
+        if s_[0] == "attr" and len(s_) == 3 and is_term(s_[1]) and s_[1][0] == "mut" and len(s_[1]) == 3:
+            base, name = s_[1], s_[2]
+            while base[0] == "mut" and len(base) == 3:
+                for e_ in reversed(base[2]):
+                    if e_[0] == "setattr" and e_[1] == name:
+                        return _read_through(e_[2])
+                    if (e_[0] == "setitem-attr" and e_[1] == name) or (e_[0] == "deep" and e_[1] and e_[1][0] == ("attr", name)) or e_[0] not in ("setattr", "setitem-attr", "deep"):
+                        return None  # the field itself is modified in place: not resolved here
+                base = base[1]
+            if base[0] == "copyof":
+                base = base[1]
+            return ("attr", _read_through(base), name)
+        return None
+    return mapterm(t, fn)
 
 
 def _normalise_atoms(f: Formula) -> Formula:
